@@ -24,6 +24,7 @@ type Interp struct {
 	tys       map[string]*Ty
 	descs     map[string]*Desc
 	evalDepth int
+	cur       *File // file of the definition being evaluated (nil = File)
 	// nondeterminism hooks
 	ExtraCap func() int // extra capacity for fresh slice allocations (default 0)
 	// FFI
@@ -206,8 +207,24 @@ func (in *Interp) global(name string, env *Env) Val {
 			return v
 		}
 	}
-	if s, ok := in.File.Defs[name]; ok {
+	cur := in.cur
+	if cur == nil {
+		cur = in.File
+	}
+	if s, ok := cur.Defs[name]; ok {
 		return in.evalDef(s)
+	}
+	// qualified identifier of an imported package that was translated too
+	if i := strings.IndexByte(name, '.'); i > 0 && cur.Imports != nil {
+		if imp, ok := cur.Imports[name[:i]]; ok {
+			if s, ok := imp.Defs[name[i+1:]]; ok {
+				saved := in.cur
+				in.cur = imp
+				v := in.evalDef(s)
+				in.cur = saved
+				return v
+			}
+		}
 	}
 	if v, ok := in.builtinValue(name); ok {
 		return v
@@ -356,9 +373,9 @@ func (in *Interp) eval(e Expr, env *Env) Val {
 		}
 		return in.eval(e.E, env)
 	case *Lam:
-		return VClos{Params: e.Params, Body: e.Body, Env: env}
+		return VClos{Params: e.Params, Body: e.Body, Env: env, File: in.cur}
 	case *Rec:
-		return VClos{RecName: e.Name, Params: e.Params, Body: e.Body, Env: env}
+		return VClos{RecName: e.Name, Params: e.Params, Body: e.Body, Env: env, File: in.cur}
 	case *For:
 		cond := in.eval(e.Cond, env)
 		post := in.eval(e.Post, env)
@@ -476,9 +493,13 @@ func (in *Interp) apply(f Val, a Val) Val {
 		}
 		env = env.bind(f.Params[0], a)
 		if len(f.Params) == 1 {
-			return in.eval(f.Body, env)
+			saved := in.cur
+			in.cur = f.File
+			v := in.eval(f.Body, env)
+			in.cur = saved
+			return v
 		}
-		return VClos{Params: f.Params[1:], Body: f.Body, Env: env}
+		return VClos{Params: f.Params[1:], Body: f.Body, Env: env, File: f.File}
 	case VBuiltin:
 		args := append(append([]Val(nil), f.Args...), a)
 		b := builtins[f.Name]
